@@ -415,7 +415,7 @@ def run(ctx):
             except Exception:
                 ast = None
             compare_expr(ctx, ast, e, "fixed")
-    n = ctx.pick(9000, 300000)
+    n = ctx.pick(9000, 1500000)
     for k in range(n):
         i += 1
         if not ctx.mine(i):
@@ -425,7 +425,7 @@ def run(ctx):
         compare_expr(ctx, ast)
         if k % 12 == 0:
             compare_state(ctx, ast)
-    nt = ctx.pick(1500, 40000)
+    nt = ctx.pick(1500, 240000)
     for k in range(nt):
         i += 1
         if not ctx.mine(i):
